@@ -67,9 +67,9 @@ Fixpoint infer_payload (e : expr) (sy : symtab) : str :=  (* infer_payload_type:
   | XRef u => infer_payload u sy
   | XStruct p => last_seg p
   | XPath [n] => match lookup n sy with Some t => t | None => n end      (* falls back to the NAME *)
-  | XPath segs => last_seg segs
+  | XPath _ => unknown                   (* qualified paths name a value, not a type (C12-fix-unknown-fallbacks) *)
   | XTuple [] => L "()"
-  | XTuple _ => L "tuple"
+  | XTuple _ => unknown                  (* element types are not tracked (C12-fix-unknown-fallbacks) *)
   | XLit (LStr _) => L "String" | XLit LInt => L "i32" | XLit LFloat => L "f64" | XLit LBool => L "bool" | XLit LOther => unknown
   | XMethod r m _ => if str_eqb m (L "clone") then infer_payload r sy else unknown
   | _ => unknown
@@ -141,15 +141,25 @@ Definition fn_events (params : list (str * qty)) (body : list stmt) : evs :=
   fn_events_p (map (fun p => (Some (fst p), snd p)) params) body.
 
 (* ---- project level: analysis/mod.rs:125 (events of every top-level fn of every file, files in
-   the cache's iteration order), bin: nothing at all is generated without a command ---- *)
+   sorted path order since C13-sort-before-use: p_files is that order), bin: nothing at all is generated without a command ---- *)
 Record fndef := { fd_params : list param; fd_body : list stmt }.
 Record project := { p_files : list (list fndef); p_has_command : bool }.
 Definition file_events (f : list fndef) : evs := flat_map (fun d => fn_events_p (fd_params d) (fd_body d)) f.
 Definition project_events (p : project) : evs := flat_map file_events (p_files p).
 
 (* ---- events.ts ---- *)
-Definition dash_to_us (s : str) : str := map (fun c => if Ascii.eqb c "-"%char then "_"%char else c) s.
-Definition listener_name (ev : str) : str := L "on" ++ pascal true (dash_to_us ev).   (* event_name_to_function *)
+(* event_name_to_function (C12-fix-dedup-and-identifier): every character that is not an ASCII letter or
+   digit becomes '_' before PascalCase. The code maps characters, the model bytes: a multi-byte
+   character gives several '_' here and one there, and PascalCase drops them all. *)
+Definition alnum (c : ascii) : bool := is_digit c || lowerp c || upperp c.
+Definition sanitize (s : str) : str := map (fun c => if alnum c then c else "_"%char) s.
+Definition listener_name (ev : str) : str := L "on" ++ pascal true (sanitize ev).
+(* create_event_contexts: one EventContext per distinct event name, the first EventInfo wins *)
+Fixpoint dedup_first (l : evs) : evs :=
+  match l with
+  | [] => []
+  | e :: r => e :: filter (fun x => negb (str_eqb (fst x) (fst e))) (dedup_first r)
+  end.
 Definition payload_ts (rust : str) : str :=
   match parse_type_structure rust with Some ts => add_types_prefix (render ts) | None => [] end.
 Definition NL : str := [ascii_of_nat 10].
@@ -166,7 +176,7 @@ Definition listener_text (e : str * str) : str :=
        T "    handler(event.payload);"; NL; T "  });"; NL; T "}"; NL; NL].
 Definition events_text (evs : list (str * str)) : str :=
   cat [T "import { listen, type UnlistenFn, type Event } from '@tauri-apps/api/event';"; NL; T "import * as types from './types';"; NL; NL] ++
-  cat (map listener_text evs).
+  cat (map listener_text (dedup_first evs)).
 
 (* what a generation run leaves behind, as far as C12 looks at it *)
 Record output := { o_generated : bool;            (* false: "No Tauri commands found", nothing written *)
